@@ -106,6 +106,7 @@ class C08Gen(Gen):
         super().__init__(ch, profile or c08_profile())
         self.collide_rate = collide_rate
         self.global_names = {}          # captured globals: name -> python text
+        self.shadowed_globals = []
         self.for_loops = []             # records in visit order
         self.while_loops = []
         self.loop_stack = []            # ('for'|'while', record)
@@ -696,9 +697,17 @@ class C08Gen(Gen):
 
         def tgt():
             outer = [v for v in self.vars_of(fn, 'R') if v not in fn.protected and v != want_var and v not in binds]
+            gl = [g for g, (_, ty) in self.global_names.items() if ty == 'R' and g not in binds and g != want_var
+                  and g not in fn.env]
             if outer and ch.bool(0.3):
                 n = ch.choice(outer)
                 self.features.add('comp-target-shadows-outer')
+            elif gl and ch.bool(0.2):
+                # the target is spelled like a captured global: the comprehension's binding is local to it,
+                # so a later read of the name is the captured value again
+                n = ch.choice(gl)
+                self.features.add('comp-target-shadows-global')
+                self.shadowed_globals.append(n)
             else:
                 n = fn.fresh('q')
             binds.append(n)
@@ -820,6 +829,13 @@ class C08Gen(Gen):
             return False
         out.append(f'{ind}{v} = {e}')
         fn.env[v] = 'B'
+        while self.shadowed_globals:      # read the captured global again after the reduction
+            g = self.shadowed_globals.pop()
+            if g in fn.env:
+                continue
+            w = fn.fresh('t')
+            out.append(f'{ind}{w} = {g} * 2 if {v} else {g} + 1')
+            fn.env[w] = 'R'
         return False
 
     # -- functions ---------------------------------------------------------------
